@@ -186,6 +186,17 @@ fn cmd_run(a: &Args) -> i32 {
     let known = load_known(a.get("known"));
     let step_scale = a.num("step-scale", 100) as usize;
     let digests_out = a.get("digests-out").map(|s| s.to_string());
+    let journal = a.get("journal").map(|s| s.to_string());
+    if let Some(j) = &journal {
+        let _ = std::fs::create_dir_all(j);
+    }
+    let skip: HashSet<u64> = a
+        .get("skip")
+        .map(|s| s.split(',').filter_map(|x| x.trim().parse().ok()).collect())
+        .unwrap_or_default();
+    // heartbeat: (run index in flight + 1, or 0 when the worker has finished)
+    let beats: Vec<AtomicU64> = (0..threads).map(|_| AtomicU64::new(u64::MAX)).collect();
+    let all_done = std::sync::atomic::AtomicBool::new(false);
 
     let t0 = Instant::now();
     let min_bad = AtomicU64::new(u64::MAX);
@@ -196,20 +207,59 @@ fn cmd_run(a: &Args) -> i32 {
 
     let accs: Vec<Acc> = std::thread::scope(|sc| {
         let mut hs = Vec::new();
+        {
+            // Watchdog: a run normally takes about a millisecond. A worker stuck on one run
+            // for three minutes means the code under test hangs; abort so that crash triage
+            // can identify the run (tiers are still bounded by run counts, this is a safety net).
+            let beats = &beats;
+            let all_done = &all_done;
+            sc.spawn(move || {
+                let mut last: Vec<(u64, Instant)> = beats.iter().map(|b| (b.load(Ordering::SeqCst), Instant::now())).collect();
+                while !all_done.load(Ordering::SeqCst) {
+                    std::thread::sleep(std::time::Duration::from_millis(500));
+                    for (k, b) in beats.iter().enumerate() {
+                        let v = b.load(Ordering::SeqCst);
+                        if v != last[k].0 {
+                            last[k] = (v, Instant::now());
+                        } else if v != 0 && v != u64::MAX && last[k].1.elapsed().as_secs() > 180 {
+                            eprintln!("WATCHDOG worker {} has been on run {} for more than 180 s; aborting", k, v - 1);
+                            std::process::abort();
+                        }
+                    }
+                }
+            });
+        }
         for t in 0..threads {
             let min_bad = &min_bad;
             let found = &found;
             let herr = &herr;
             let known = &known;
             let all_digests = &all_digests;
+            let beats = &beats;
+            let skip = &skip;
+            let journal = journal.clone();
             hs.push(sc.spawn(move || {
                 run::install_panic_hook();
+                let mut jfile = journal.as_ref().and_then(|j| {
+                    std::fs::OpenOptions::new().create(true).write(true).truncate(true).open(format!("{}/t{}", j, t)).ok()
+                });
                 let mut acc = Acc::default();
                 let mut local_digests = Vec::new();
                 let mut i = t as u64;
                 while i < runs {
                     if i > min_bad.load(Ordering::SeqCst) || herr.lock().unwrap().is_some() {
                         break;
+                    }
+                    if skip.contains(&i) {
+                        acc.stats.hit("note.run-skipped-after-out-of-scope-crash");
+                        i += threads as u64;
+                        continue;
+                    }
+                    beats[t].store(i + 1, Ordering::SeqCst);
+                    if let Some(f) = jfile.as_mut() {
+                        use std::io::{Seek, SeekFrom, Write};
+                        let _ = f.seek(SeekFrom::Start(0));
+                        let _ = f.write_all(format!("{:<20}\n", i).as_bytes());
                     }
                     let seed_i = mix(seed, prop_tag(prop), i);
                     let g = match generate(seed_i, prop, step_scale) {
@@ -294,10 +344,18 @@ fn cmd_run(a: &Args) -> i32 {
                 if want_digests {
                     all_digests.lock().unwrap().extend(local_digests);
                 }
+                beats[t].store(0, Ordering::SeqCst);
+                if let Some(f) = jfile.as_mut() {
+                    use std::io::{Seek, SeekFrom, Write};
+                    let _ = f.seek(SeekFrom::Start(0));
+                    let _ = f.write_all(format!("{:<20}\n", "done").as_bytes());
+                }
                 acc
             }));
         }
-        hs.into_iter().map(|h| h.join().expect("worker thread died")).collect()
+        let r: Vec<Acc> = hs.into_iter().map(|h| h.join().expect("worker thread died")).collect();
+        all_done.store(true, Ordering::SeqCst);
+        r
     });
 
     if let Some(e) = herr.lock().unwrap().take() {
@@ -573,6 +631,227 @@ fn cmd_replay(a: &Args) -> i32 {
     }
 }
 
+/// Executes exactly one run of a batch, journaling every operation before it is executed.
+fn cmd_one(a: &Args) -> i32 {
+    let prop = match a.get("prop").and_then(prop_bit) {
+        Some(p) => p,
+        None => return 2,
+    };
+    let seed = a.num("seed", DEFAULT_SEED);
+    let idx = a.num("run", 0);
+    let step_scale = a.num("step-scale", 100) as usize;
+    if let Some(p) = a.get("oplog") {
+        match std::fs::OpenOptions::new().create(true).write(true).truncate(true).open(p) {
+            Ok(f) => *run::OPLOG.lock().unwrap() = Some(f),
+            Err(e) => {
+                eprintln!("HARNESS-ERROR cannot open {}: {}", p, e);
+                return 2;
+            }
+        }
+    }
+    match generate(mix(seed, prop_tag(prop), idx), prop, step_scale) {
+        Ok(g) => {
+            println!("run {} finished: steps={} violation={}", idx, g.out.steps, g.out.violation.is_some());
+            0
+        }
+        Err(HarnessError(e)) => {
+            eprintln!("HARNESS-ERROR {}", e);
+            2
+        }
+    }
+}
+
+enum ChildEnd {
+    Exited(i32),
+    Killed(String),
+    Hung,
+}
+
+fn run_child(args: &[String], timeout_s: u64) -> ChildEnd {
+    use std::process::{Command, Stdio};
+    let exe = std::env::current_exe().expect("current_exe");
+    let mut child = match Command::new(exe).args(args).stdout(Stdio::null()).stderr(Stdio::null()).spawn() {
+        Ok(c) => c,
+        Err(e) => return ChildEnd::Killed(format!("spawn failed: {}", e)),
+    };
+    let t0 = Instant::now();
+    loop {
+        match child.try_wait() {
+            Ok(Some(st)) => {
+                return match st.code() {
+                    Some(c) if c == 0 || c == 1 || c == 2 => ChildEnd::Exited(c),
+                    Some(c) => ChildEnd::Killed(format!("exit code {}", c)),
+                    None => {
+                        use std::os::unix::process::ExitStatusExt;
+                        ChildEnd::Killed(format!("signal {}", st.signal().unwrap_or(0)))
+                    }
+                };
+            }
+            Ok(None) => {
+                if t0.elapsed().as_secs() > timeout_s {
+                    let _ = child.kill();
+                    let _ = child.wait();
+                    return ChildEnd::Hung;
+                }
+                std::thread::sleep(std::time::Duration::from_millis(2));
+            }
+            Err(e) => return ChildEnd::Killed(format!("wait failed: {}", e)),
+        }
+    }
+}
+
+fn write_crash_file(path: &str, prop_name: &str, seed: u64, idx: u64, profile: &str, start: &str, trace: &[Op], class: &str, msg: &str, orig_len: usize) -> bool {
+    let file = json!({
+        "property": prop_name,
+        "seed": seed,
+        "run": idx,
+        "profile": profile,
+        "start_fen": start,
+        "original_trace_len": orig_len,
+        "trace": trace.iter().map(|o| o.pretty()).collect::<Vec<_>>(),
+        "violation": { "class": class, "step": trace.len(), "message": msg },
+    });
+    std::fs::write(path, serde_json::to_string_pretty(&file).unwrap()).is_ok()
+}
+
+/// After a batch process died abnormally: find the run, journal its operations in a child
+/// process, minimise the trace with child processes, and write a replay file whose replay
+/// kills (or hangs) the replaying process again.
+fn cmd_triage(a: &Args) -> i32 {
+    let prop_name = a.get("prop").unwrap_or("").to_string();
+    let prop = match prop_bit(&prop_name) {
+        Some(p) => p,
+        None => return 2,
+    };
+    let seed = a.num("seed", DEFAULT_SEED);
+    let profile = a.get("profile-name").unwrap_or("release").to_string();
+    let journal = a.get("journal").unwrap_or("").to_string();
+    let replay_dir = a.get("replay-dir").unwrap_or("/verif/replays").to_string();
+    let step_scale = a.num("step-scale", 100);
+    let mut cands: Vec<u64> = Vec::new();
+    if let Ok(rd) = std::fs::read_dir(&journal) {
+        for e in rd.flatten() {
+            if let Ok(t) = std::fs::read_to_string(e.path()) {
+                if let Ok(i) = t.trim().parse::<u64>() {
+                    cands.push(i);
+                }
+            }
+        }
+    }
+    cands.sort_unstable();
+    cands.dedup();
+    if cands.is_empty() {
+        eprintln!("HARNESS-ERROR triage: no run in flight recorded in {}", journal);
+        return 2;
+    }
+    let oplog = format!("{}/oplog", journal);
+    for idx in cands {
+        let _ = std::fs::remove_file(&oplog);
+        let args: Vec<String> = vec![
+            "one".into(), "--prop".into(), prop_name.clone(), "--seed".into(), seed.to_string(),
+            "--run".into(), idx.to_string(), "--oplog".into(), oplog.clone(), "--step-scale".into(), step_scale.to_string(),
+        ];
+        let end = run_child(&args, 240);
+        let (class, how) = match end {
+            ChildEnd::Exited(_) => continue,
+            ChildEnd::Killed(h) => ("crash", h),
+            ChildEnd::Hung => ("hang", "no progress for 240 s".to_string()),
+        };
+        // rebuild the trace from the journal
+        let text = std::fs::read_to_string(&oplog).unwrap_or_default();
+        let mut lines = text.lines();
+        let start = match lines.next().and_then(|l| l.strip_prefix("start ")) {
+            Some(s) => s.to_string(),
+            None => {
+                eprintln!("HARNESS-ERROR triage: run {} died ({}) before its start position was chosen", idx, how);
+                return 2;
+            }
+        };
+        let mut trace: Vec<Op> = Vec::new();
+        for l in lines {
+            match Op::decode(l) {
+                Some(op) => trace.push(op),
+                None => break,
+            }
+        }
+        let last = match trace.last() {
+            Some(op) => op.clone(),
+            None => {
+                eprintln!("HARNESS-ERROR triage: run {} died ({}) while its start position was being checked", idx, how);
+                return 2;
+            }
+        };
+        let in_scope = world::World::panic_props(&last, "moves/base.rs").iter().any(|p| *p == prop);
+        if !in_scope {
+            println!("CRASH-OUT-OF-SCOPE property={} run={} ({}) during {}", prop_name, idx, how, last.pretty());
+            return 3;
+        }
+        // minimise with child processes
+        let _ = std::fs::create_dir_all(&replay_dir);
+        let tmp = format!("{}/cand.json", journal);
+        let orig_len = trace.len();
+        let dies = |t: &[Op]| -> bool {
+            if !write_crash_file(&tmp, &prop_name, seed, idx, &profile, &start, t, class, "candidate", orig_len) {
+                return false;
+            }
+            let r = run_child(&["replay".to_string(), tmp.clone()], if class == "hang" { 60 } else { 240 });
+            match (class, r) {
+                ("crash", ChildEnd::Killed(_)) => true,
+                ("hang", ChildEnd::Hung) => true,
+                _ => false,
+            }
+        };
+        let mut cur = trace.clone();
+        if dies(&cur) {
+            let mut budget = if class == "hang" { 12usize } else { 400 };
+            let mut chunk = (cur.len() / 2).max(1);
+            loop {
+                let mut i = 0;
+                let mut progressed = false;
+                while i < cur.len() && budget > 0 {
+                    let end = (i + chunk).min(cur.len());
+                    let mut cand = cur[..i].to_vec();
+                    cand.extend_from_slice(&cur[end..]);
+                    budget -= 1;
+                    if dies(&cand) {
+                        cur = cand;
+                        progressed = true;
+                    } else {
+                        i = end;
+                    }
+                }
+                if budget == 0 || (chunk == 1 && !progressed) {
+                    break;
+                }
+                if chunk > 1 {
+                    chunk /= 2;
+                }
+            }
+        } else {
+            eprintln!("HARNESS-ERROR triage: the journaled trace of run {} does not {} again when replayed", idx, class);
+            return 2;
+        }
+        let path = format!("{}/{}-{}-{}-{}-{}.json", replay_dir, prop_name, seed, idx, profile, class);
+        let msg = format!(
+            "the process executing this history {} during {} (run {} of the batch)",
+            if class == "hang" { format!("made no progress ({})", how) } else { format!("was terminated abnormally ({})", how) },
+            cur.last().map(|o| o.pretty()).unwrap_or_default(),
+            idx
+        );
+        if !write_crash_file(&path, &prop_name, seed, idx, &profile, &start, &cur, class, &msg, orig_len) {
+            eprintln!("HARNESS-ERROR cannot write {}", path);
+            return 2;
+        }
+        println!(
+            "CANDIDATE property={} replay={} class={} run={} ops={} (from {}) :: {}",
+            prop_name, path, class, idx, cur.len(), orig_len, msg
+        );
+        return 1;
+    }
+    eprintln!("HARNESS-ERROR triage: none of the runs in flight dies when executed alone");
+    2
+}
+
 fn cmd_selftest() -> i32 {
     let mut bad = refmodel::perft_selftest();
     // encode/decode round trip of generated operations
@@ -610,6 +889,8 @@ fn main() {
         Some("run") => cmd_run(&a),
         Some("replay") => cmd_replay(&a),
         Some("selftest") => cmd_selftest(),
+        Some("one") => cmd_one(&a),
+        Some("triage") => cmd_triage(&a),
         _ => {
             eprintln!("usage: owlsim run|replay|selftest ...");
             2
